@@ -145,6 +145,14 @@ func (ex *Exec) intrinsic(fr *Frame, fn *ssa.Function, args []Value, env []Value
 			return r, p, true
 		}
 	}
+	if strings.HasSuffix(name, "/internal/geom.curveContained") && ex.consts["SUMMARY_CONTAINED"] == 1 {
+		// the containment verdict as an arbitrary boolean: control-flow claims about its callers (termination,
+		// which points the pieces start and end at) then hold whatever the verdicts are
+		ex.stub("geom.curveContained = arbitrary boolean (over-approximation: every sequence of verdicts)")
+		vn := ex.freshName("contained")
+		ex.nondets = append(ex.nondets, NondetRec{Name: "contained", Var: vn, Kind: "bool"})
+		return BoolVar(vn), FF, true
+	}
 	if strings.HasSuffix(name, "/internal/geom.solve3") && ex.consts["SUMMARY_SOLVE3"] == 1 {
 		return ex.solve3Summary(args, g), FF, true
 	}
